@@ -26,6 +26,9 @@ the set hash function; the theorems hold for every `Env`.
 import CtyModel.Lemmas.StdlibCall
 import CtyModel.Lemmas.Asc
 import CtyModel.Lemmas.d13Model
+import CtyModel.Lemmas.d13Seq
+import CtyModel.Lemmas.d13Index
+import CtyModel.Lemmas.d13Map
 namespace CtyModel
 namespace C13
 open Stdlib Value
@@ -178,15 +181,23 @@ theorem reverse_type (e : Ty) (ts : List Ty) (p : Payload) :
 
 /-- **distinct** keeps exactly the first occurrences, order preserved: an element
 is kept iff no EARLIER element of the input is equal to it (`eqT` is "`Equals`
-answers known true"; that every comparison among wholly known mark-free values
-is decided is C01's `known_in_known_out`; transitivity of `Equals` is C03). -/
+answers known true").  What is asked of `Equals` — every comparison decided, and
+transitivity — is asked only of the MEMBERS of the list (`EqOn`), not of all values. -/
 theorem distinct_first_occurrences (E : Env) (e : Ty) (he : e.equals e = true) (vs : List Payload)
-    (hk : Payload.whollyKnownL vs = true)
-    (hd : Decided (vs.map (⟨e, ·⟩)))
-    (htr : ∀ a b c, eqT a b = true → eqT b c = true → eqT a c = true) :
+    (hk : Payload.whollyKnownL vs = true) (hE : EqOn (vs.map (⟨e, ·⟩))) :
     ∃ kept, distinctImpl E [⟨.list e, .seq vs⟩] (.list e) = .ok (mkList e kept) ∧
       kept.map (⟨e, ·⟩) = Spec.firstOccs eqT (vs.map (⟨e, ·⟩)) :=
-  distinctImpl_eq E e he vs hk hd htr
+  distinctImpl_eq_on E e he vs hk hE
+
+/-- **…and for a list of a plain element type nothing is assumed**: the members being
+well-formed, wholly known and mark-free, `Equals` IS the structural `RawEquals` (C03
+`equals_of_members`), which is decided and transitive, and `distinct` returns the first
+occurrences up to `RawEquals` — in payload vocabulary -/
+theorem distinct_plain (E : Env) (e : Ty) (hw : e.wf = true) (hp : e.plain = true) (vs : List Payload)
+    (hm : ∀ p ∈ vs, Payload.plainMember e p = true) :
+    distinctImpl E [⟨.list e, .seq vs⟩] (.list e) = .ok (mkList e (Spec.firstOccs (rawB e) vs)) ∧
+    EqOn (vs.map (⟨e, ·⟩)) :=
+  ⟨distinctImpl_plain E e hw hp vs hm, eqOn_plain hw hp vs hm⟩
 
 /-- **compact** returns the non-null, non-empty strings in their original order, as
 a list of strings -/
@@ -502,6 +513,33 @@ theorem contains_eq (E : Env) (e : Ty) (vs : List Payload) (x : Value) (retTy : 
     containsImpl E [⟨.list e, .seq []⟩, x] retTy = .ok (boolVal false) :=
   ⟨containsImpl_list E e vs x retTy hx hne hd, containsImpl_empty E e x retTy⟩
 
+/-- **contains on its whole domain** — any known non-null, non-empty list, tuple or set
+(`elems` is what the iterator yields: list members, tuple members each with its own
+type, set members in iteration order): `true` iff `Equals` answers true for one of them -/
+theorem contains_any_sequence (E : Env) (c x : Value) (retTy : Ty) (es : List Value) (n : Nat)
+    (hty : (isListTy c.ty || isTupleTy c.ty || isSetTy c.ty) = true) (hnull : c.isNull = false)
+    (hk : c.isKnown = true) (hx : x.isKnown = true) (hlen : lengthInt c = .ok n) (hn : n ≠ 0)
+    (hel : elems E c = .ok es) (hd : ∀ v ∈ es, ∃ bv, Value.equals x v = .ok (boolVal bv)) :
+    containsImpl E [c, x] retTy = .ok (boolVal (es.any fun v => eqT x v)) :=
+  containsImpl_elems E c x retTy es n hty hnull hk hx hlen hn hel hd
+
+/-- **…with nothing assumed about `Equals` for plain element types**: on a non-empty list
+or set of well-formed, wholly known, mark-free members and such a needle, `true` iff
+some member is `RawEquals` to the needle (for the set: whatever its iteration order) -/
+theorem contains_plain (E : Env) (e : Ty) (hw : e.wf = true) (hp : e.plain = true) (ids : List Int)
+    (vs : List Payload) (q : Payload) (retTy : Ty) (hne : vs ≠ [])
+    (hm : ∀ p ∈ vs, Payload.plainMember e p = true) (hq : Payload.plainMember e q = true) :
+    containsImpl E [⟨.list e, .seq vs⟩, ⟨e, q⟩] retTy = .ok (boolVal (vs.any fun p => rawB e q p)) ∧
+    containsImpl E [⟨.set e, .sset ids vs⟩, ⟨e, q⟩] retTy = .ok (boolVal (vs.any fun p => rawB e q p)) :=
+  containsImpl_plain E e hw hp ids vs q retTy hne hm hq
+
+/-- **contains fails outside its domain**: a first argument that is not a list, tuple or
+set, or a null one (inside the domain the three theorems above give the `ok` answer) -/
+theorem contains_fails_outside_domain (E : Env) (c x : Value) (retTy : Ty)
+    (h : (isListTy c.ty || isTupleTy c.ty || isSetTy c.ty) = false ∨ c.isNull = true) :
+    Fails (containsImpl E [c, x] retTy) :=
+  containsImpl_outside E c x retTy h
+
 /-- **coalesce** on known arguments: the first non-null one, converted to the
 unified type; an error when all are null -/
 theorem coalesce_first_non_null (E : Env) (retTy : Ty) (args : List Value) (hk : ∀ a ∈ args, a.isKnown = true) :
@@ -797,6 +835,66 @@ theorem index_type_rules (e : Ty) (ts : List Ty) (p : Payload) (key : Value) (x 
            | none => oob)) :=
   indexType_rules e ts p key x
 
+/-- **index(list, x) for ANY known number**: the member at position `i` when `x` is the
+whole number `i` with `0 ≤ i < len`; for a negative, fractional, out-of-`int`, infinite
+or out-of-range key the ordinary error "invalid index" — never a panic
+(`Spec.natIndex? x = some i` reads "`x` is the whole number `i`, `0 ≤ i ≤ maxInt`") -/
+theorem index_list_any_number (e : Ty) (vs : List Payload) (x : Num)
+    (hm : Payload.containsMarkedL vs = false) (retTy : Ty) :
+    indexImpl [⟨.list e, .seq vs⟩, numVal x] retTy =
+      match (Spec.natIndex? x).bind (vs[·]?) with
+      | some p => .ok ⟨e, p⟩
+      | none => .err "invalid index" :=
+  indexImpl_list_num e vs x hm retTy
+
+/-- **index(tuple, x)**: the member together with ITS type at position `i`; the same
+error everywhere else -/
+theorem index_tuple (ts : List Ty) (vs : List Payload) (x : Num) (hl : ts.length = vs.length)
+    (hm : Payload.containsMarkedL vs = false) (retTy : Ty) :
+    indexImpl [⟨.tuple ts, .seq vs⟩, numVal x] retTy =
+      match (Spec.natIndex? x).bind (fun i => (ts[i]?).bind fun t => (vs[i]?).map fun p => (⟨t, p⟩ : Value)) with
+      | some v => .ok v
+      | none => .err "invalid index" :=
+  indexImpl_tuple_num ts vs x hl hm retTy
+
+/-- **index(map, key)**: the element under the key when the map has the key, the error
+"invalid index" when it has not (unlike `Value.Index`, which answers null there: C02
+`index_map_missing_counterexample`) -/
+theorem index_map (e : Ty) (ks : List String) (vs : List Payload) (k : String)
+    (hm : Payload.containsMarkedL vs = false) (retTy : Ty) :
+    indexImpl [⟨.map e, .smap ks vs⟩, strVal k] retTy =
+      if ks.contains k then .ok ⟨e, (lookupKey k ks vs).getD .null⟩ else .err "invalid index" :=
+  indexImpl_map_str e ks vs k hm retTy
+
+/-- **index fails outside its domain** already in the `Type` callback: a collection that
+is not a list, tuple or map; a key that is not a number for a list or tuple; a key that
+is not a string for a map -/
+theorem index_fails_outside_domain (c key : Value) :
+    (isListTy c.ty = false → isTupleTy c.ty = false → isMapTy c.ty = false → Fails (indexType [c, key])) ∧
+    (isListTy c.ty = true → key.ty.isNumber = false → key.ty.isDyn = false → Fails (indexType [c, key])) ∧
+    (isTupleTy c.ty = true → key.ty.isNumber = false → key.ty.isDyn = false → Fails (indexType [c, key])) ∧
+    (isMapTy c.ty = true → key.ty.isString = false → key.ty.isDyn = false → Fails (indexType [c, key])) :=
+  indexType_domain c key
+
+/-- **lookup in an object**: the attribute's value with the attribute's own type when
+the object type declares the attribute, otherwise the default converted to the result type -/
+theorem lookup_object (E : Env) (ns : List String) (ts : List Ty) (os : List Bool) (vs : List Payload)
+    (k : String) (d : Value) (retTy : Ty)
+    (h1 : ns.length = ts.length) (h2 : ns.length = os.length) (h3 : ns.length = vs.length)
+    (hk : Payload.whollyKnownL vs = true) (hm : ∀ p ∈ vs, p.isMarked = false) :
+    lookupImpl E [⟨.object ns ts os, .smap ns vs⟩, strVal k, d] retTy =
+      match Spec.attr? k ns ts vs with
+      | some v => .ok v
+      | none => (convertTo E d retTy).map (withMarkSets · [[]]) :=
+  lookupImpl_object E ns ts os vs k d retTy h1 h2 h3 hk hm
+
+/-- **lookup fails outside its domain** (in the `Type` callback): a first argument that is
+neither a map nor an object; a map whose default does not convert to the element type -/
+theorem lookup_fails_outside_domain (E : Env) (m key d : Value) :
+    (isMapTy m.ty = false → isObjectTy m.ty = false → Fails (lookupType E [m, key, d])) ∧
+    (∀ e, m.ty = .map e → (∃ c, convertTo E d e = .err c) → Fails (lookupType E [m, key, d])) :=
+  lookupType_outside E m key d
+
 /-- **slice(tuple, a, b)**: the tuple of the members at positions `a ≤ p < b`, typed
 by the same slice of the element types, which is the type the `Type` callback
 predicts; outside `0 ≤ a ≤ b ≤ len` both callbacks fail -/
@@ -895,6 +993,16 @@ example : FiledUnder modelEnv .number [450215437, 2226203566] [.n (Num.ofInt 2 6
 example : (setHasElementImpl modelEnv
     [⟨.set .number, .sset [450215437, 2226203566] [.n (Num.ofInt 2 64), .n (Num.ofInt 5 64)]⟩,
      ⟨.number, .n (Num.ofInt 5 64)⟩] .bool) = .ok (boolVal true) := by decide +kernel
+example : Spec.natIndex? (Num.ofInt 2 64) = some 2 ∧ Spec.natIndex? (Num.ofInt (-1) 64) = none ∧
+    Spec.natIndex? (.fin false 1 (-1) 53) = none ∧ Spec.natIndex? (.inf false) = none := by decide
+example : indexImpl [⟨.list .string, .seq [.s "a", .s "b", .s "c"]⟩, intVal 2] .string = .ok ⟨.string, .s "c"⟩ ∧
+    indexImpl [⟨.list .string, .seq [.s "a", .s "b", .s "c"]⟩, intVal (-1)] .string = .err "invalid index" := by
+  constructor <;> rfl
+example : Spec.attr? "b" ["a", "b"] [.string, .number] [.s "x", .n (Num.ofInt 1 64)] =
+    some ⟨.number, .n (Num.ofInt 1 64)⟩ := by decide
+example : Payload.plainMember (.tuple [.number, .string]) (.seq [.n (Num.ofInt 1 64), .s "a"]) = true := by decide
+example : Spec.firstOccs (rawB .string) [.s "a", .s "b", .s "a", .null, .null] = [.s "a", .s "b", .null] := by
+  simp [Spec.firstOccs, Spec.firstOccsFrom, rawB]
 
 end C13
 end CtyModel
